@@ -3,9 +3,27 @@ package main
 import (
 	"fmt"
 	"go/ast"
+	"go/token"
 	"regexp"
 	"strings"
 )
+
+// every parameter and the result have the form func(X) Y
+func funcShaped(fd *ast.FuncDecl) bool {
+	one := func(e ast.Expr) bool {
+		ft, ok := e.(*ast.FuncType)
+		return ok && ft.Params != nil && len(ft.Params.List) == 1 && len(ft.Params.List[0].Names) <= 1 && ft.Results != nil && len(ft.Results.List) == 1
+	}
+	if fd.Type.Params == nil || len(fd.Type.Params.List) == 0 || fd.Type.Results == nil || len(fd.Type.Results.List) != 1 || !one(fd.Type.Results.List[0].Type) {
+		return false
+	}
+	for _, p := range fd.Type.Params.List {
+		if !one(p.Type) {
+			return false
+		}
+	}
+	return true
+}
 
 // family pipen: internal/pipe/pipe.go
 //
@@ -45,12 +63,31 @@ func pipen(files []string) string {
 	count := 0
 	for _, path := range files {
 		f := parse(path)
-		for _, d := range f.Decls {
-			fd, ok := d.(*ast.FuncDecl)
-			if !ok || fd.Recv != nil || !pipeName.MatchString(fd.Name.Name) {
-				continue
+		// the functions a body may delegate to: every Pipe*, and unexported helpers whose parameters and result are
+		// all of the form func(X) Y over their type parameters (e.g. `compose`)
+		known := map[string]bool{}
+		decls := []*ast.FuncDecl{}
+		for pass := 0; pass < 2; pass++ { // helpers first: Lean wants definitions before their uses
+			for _, d := range f.Decls {
+				fd, ok := d.(*ast.FuncDecl)
+				if !ok || fd.Recv != nil || fd.Body == nil {
+					continue
+				}
+				isPipe := pipeName.MatchString(fd.Name.Name)
+				if isPipe != (pass == 1) {
+					continue
+				}
+				if !isPipe && (fd.Name.IsExported() || !funcShaped(fd)) {
+					continue
+				}
+				known[fd.Name.Name] = true
+				decls = append(decls, fd)
 			}
-			count++
+		}
+		for _, fd := range decls {
+			if pipeName.MatchString(fd.Name.Name) {
+				count++
+			}
 			tps := typeParams(fd)
 			isTP := map[string]bool{}
 			for _, t := range tps {
@@ -74,9 +111,45 @@ func pipen(files []string) string {
 				fail(fset.Position(fd.Pos()), "%s: expected one result", fd.Name.Name)
 			}
 			rx, ry := funcType(fd.Type.Results.List[0].Type, fd.Name.Name)
-			lit, ok := singleReturn(fd.Body, fd.Name.Name).(*ast.FuncLit)
+			ret0 := singleReturn(fd.Body, fd.Name.Name)
+			lit, ok := ret0.(*ast.FuncLit)
 			if !ok {
-				fail(fset.Position(fd.Body.Pos()), "%s: expected `return func(a A) Z {...}`", fd.Name.Name)
+				// `return h(e1, …, en)`: a function-valued expression built from the parameters and calls of known
+				// functions of this file (each call of such a function only BUILDS a function; nothing runs yet)
+				var fexpr func(e ast.Expr) string
+				fexpr = func(e ast.Expr) string {
+					switch x := e.(type) {
+					case *ast.ParenExpr:
+						return fexpr(x.X)
+					case *ast.Ident:
+						if isParam[x.Name] {
+							return id(x.Name)
+						}
+					case *ast.CallExpr:
+						var h *ast.Ident
+						switch fx := x.Fun.(type) {
+						case *ast.Ident:
+							h = fx
+						case *ast.IndexExpr: // explicit instantiation h[T](…)
+							h, _ = fx.X.(*ast.Ident)
+						case *ast.IndexListExpr:
+							h, _ = fx.X.(*ast.Ident)
+						}
+						if h != nil && known[h.Name] && h.Name != fd.Name.Name && x.Ellipsis == token.NoPos {
+							parts := []string{h.Name}
+							for _, a := range x.Args {
+								parts = append(parts, fexpr(a))
+							}
+							return "(" + strings.Join(parts, " ") + ")"
+						}
+					}
+					fail(fset.Position(e.Pos()), "%s: expected `return func(a A) Z {...}` or a composition of the supplied functions, got %s", fd.Name.Name, src(e))
+					return ""
+				}
+				fmt.Fprintf(&sb, "@[simp] def %s {%s : Type} %s : %s → m %s :=\n  %s\n\n", fd.Name.Name,
+					strings.Join(tps, " "), strings.Join(params, " "), rx, ry, fexpr(ret0))
+				digest = append(digest, fmt.Sprintf("-- %s := %s", fd.Name.Name, src(ret0)))
+				continue
 			}
 			lx, ly := funcType(lit.Type, fd.Name.Name)
 			if lx != rx || ly != ry || len(lit.Type.Params.List[0].Names) != 1 {
@@ -122,7 +195,7 @@ func pipen(files []string) string {
 			}
 			body := rs.Results[0]
 			lines := a.ret(body)
-			fmt.Fprintf(&sb, "def %s {%s : Type} %s : %s → m %s := fun %s => do\n", fd.Name.Name,
+			fmt.Fprintf(&sb, "@[simp] def %s {%s : Type} %s : %s → m %s := fun %s => do\n", fd.Name.Name,
 				strings.Join(tps, " "), strings.Join(params, " "), rx, ry, id(arg))
 			for _, l := range lines {
 				sb.WriteString("  " + l + "\n")
